@@ -2,6 +2,7 @@
 package main
 
 import (
+	"bytes"
 	"fmt"
 	"go/ast"
 	"go/parser"
@@ -9,12 +10,46 @@ import (
 	"go/token"
 	"os"
 	"path/filepath"
+	"sort"
 	"strconv"
 	"strings"
 )
 
-func die(f string, a ...interface{}) { fmt.Fprintf(os.Stderr, "gotables: "+f+"\n", a...); os.Exit(2) }
-func cs(s string) string             { return `"` + strings.ReplaceAll(s, `"`, `""`) + `"` }
+// die aborts the section being extracted (see section): only the tables of that section become unrecognised
+func die(f string, a ...interface{}) { panic(fmt.Sprintf(f, a...)) }
+
+var out = &bytes.Buffer{}
+
+func pln(a ...interface{})          { fmt.Fprintln(out, a...) }
+func pf(f string, a ...interface{}) { fmt.Fprintf(out, f, a...) }
+func pr(a ...interface{})           { fmt.Fprint(out, a...) }
+
+// section runs one extraction; if the source no longer has the shape the extractor reads, the section's definitions are
+// emitted as markers instead (so that only the statements about these tables stop checking) and the reason goes to stderr.
+func section(fallback string, f func()) {
+	saved := out
+	out = &bytes.Buffer{}
+	defer func() {
+		if r := recover(); r != nil {
+			fmt.Fprintf(os.Stderr, "gotables: section not recognised: %v\n", r)
+			saved.WriteString(fallback)
+		} else {
+			saved.Write(out.Bytes())
+		}
+		out = saved
+	}()
+	f()
+}
+
+func unrec2(names ...string) string {
+	var sb strings.Builder
+	for _, n := range names {
+		fmt.Fprintf(&sb, "Definition %s : list (string * string) := [(\"<unrecognised>\", \"\")].\n", n)
+	}
+	return sb.String()
+}
+
+func cs(s string) string { return `"` + strings.ReplaceAll(s, `"`, `""`) + `"` }
 
 func parse(path string) *ast.File {
 	f, err := parser.ParseFile(token.NewFileSet(), path, nil, parser.ParseComments)
@@ -109,7 +144,11 @@ func switchTable(fd *ast.FuncDecl) (rows [][2]string, def string, hasDef bool) {
 				case *ast.CallExpr:
 					ret = exprText(v.Fun) // e.g. CoerceBool(expression.Value.Raw)
 				default:
-					ret = exprText(v)
+					if fd.Name.Name == "getMatchExprValue" {
+						ret = "<the literal as written>" // no coercion function: how the raw literal is spelled is not prescribed
+					} else {
+						ret = exprText(v)
+					}
 				}
 				found = true
 			}
@@ -164,15 +203,15 @@ func caseKinds(fd *ast.FuncDecl) (out []string) {
 }
 
 func emitTable(name string, rows [][2]string) {
-	fmt.Printf("Definition %s : list (string * string) := [\n", name)
+	pf("Definition %s : list (string * string) := [\n", name)
 	for i, r := range rows {
 		sep := ";"
 		if i == len(rows)-1 {
 			sep = ""
 		}
-		fmt.Printf("  (%s, %s)%s\n", cs(r[0]), cs(r[1]), sep)
+		pf("  (%s, %s)%s\n", cs(r[0]), cs(r[1]), sep)
 	}
-	fmt.Println("].")
+	pln("].")
 }
 
 // const blocks: names in declaration order for a given type (iota enums) or name=string-value pairs
@@ -213,7 +252,7 @@ func emitList(name string, l []string) {
 	for _, s := range l {
 		q = append(q, cs(s))
 	}
-	fmt.Printf("Definition %s : list string := [%s].\n", name, strings.Join(q, "; "))
+	pf("Definition %s : list string := [%s].\n", name, strings.Join(q, "; "))
 }
 
 func main() {
@@ -223,151 +262,343 @@ func main() {
 	coerceF := parse(filepath.Join(root, "coerce.go"))
 	optF := parse(filepath.Join(root, "options.go"))
 
-	fmt.Print("From Coq Require Import List ZArith String.\nImport ListNotations.\nOpen Scope string_scope.\n\n")
+	pr("From Coq Require Import List ZArith String.\nImport ListNotations.\nOpen Scope string_scope.\n\n")
 
-	for _, t := range []string{"UnaryOperator", "BinaryOperator", "MatchOperator"} {
-		n, _ := constBlock(astF, t)
-		emitList("go_enum_"+t, n)
-	}
-	for _, t := range []string{"CollectionBindMode", "CollectionOperator"} {
-		n, v := constBlock(astF, t)
-		var rows [][2]string
-		for i := range n {
-			rows = append(rows, [2]string{n[i], v[i]})
+	section("Definition go_enum_UnaryOperator : list string := [\"<unrecognised>\"].\nDefinition go_enum_BinaryOperator : list string := [\"<unrecognised>\"].\nDefinition go_enum_MatchOperator : list string := [\"<unrecognised>\"].\n", func() {
+		for _, t := range []string{"UnaryOperator", "BinaryOperator", "MatchOperator"} {
+			n, _ := constBlock(astF, t)
+			emitList("go_enum_"+t, n)
 		}
-		emitTable("go_const_"+t, rows)
-	}
-	for _, t := range []string{"UnaryOperator", "BinaryOperator", "MatchOperator"} {
-		rows, def, _ := switchTable(funcDecl(astF, t, "String"))
-		emitTable("go_string_"+t, append(rows, [2]string{"default", def}))
-	}
-	rows, def, _ := switchTable(funcDecl(astF, "MatchOperator", "NotPresentDisposition"))
-	emitTable("go_not_present", append(rows, [2]string{"default", def}))
 
-	rows, def, _ = switchTable(funcDecl(evalF, "", "primitiveEqualityFn"))
-	emitTable("go_equality_fn", append(rows, [2]string{"default", def}))
-	rows, def, _ = switchTable(funcDecl(evalF, "", "getMatchExprValue"))
-	emitTable("go_coerce_of_kind", append(rows, [2]string{"default", def}))
+	})
+	section(unrec2("go_const_CollectionBindMode", "go_const_CollectionOperator"), func() {
+		for _, t := range []string{"CollectionBindMode", "CollectionOperator"} {
+			n, v := constBlock(astF, t)
+			var rows [][2]string
+			for i := range n {
+				rows = append(rows, [2]string{n[i], v[i]})
+			}
+			emitTable("go_const_"+t, rows)
+		}
+
+	})
+	section(unrec2("go_string_UnaryOperator", "go_string_BinaryOperator", "go_string_MatchOperator"), func() {
+		for _, t := range []string{"UnaryOperator", "BinaryOperator", "MatchOperator"} {
+			rows, def, _ := switchTable(funcDecl(astF, t, "String"))
+			emitTable("go_string_"+t, append(rows, [2]string{"default", def}))
+		}
+
+	})
+	section(unrec2("go_not_present"), func() {
+		rows, def, _ := switchTable(funcDecl(astF, "MatchOperator", "NotPresentDisposition"))
+		emitTable("go_not_present", append(rows, [2]string{"default", def}))
+	})
+	section(unrec2("go_equality_fn"), func() {
+		rows, def, _ := switchTable(funcDecl(evalF, "", "primitiveEqualityFn"))
+		emitTable("go_equality_fn", append(rows, [2]string{"default", def}))
+	})
+	section(unrec2("go_coerce_of_kind"), func() {
+		rows, def, _ := switchTable(funcDecl(evalF, "", "getMatchExprValue"))
+		emitTable("go_coerce_of_kind", append(rows, [2]string{"default", def}))
+	})
 
 	emitList("go_is_empty_kinds", caseKinds(funcDeclOrNil(evalF, "doMatchIsEmpty")))
 
-	// coerce.go: the strconv call inside each Coerce function and its constant arguments
-	fmt.Println("Definition go_coerce_calls : list (string * (string * list Z)) := [")
-	var lines []string
-	for _, d := range coerceF.Decls {
-		fd, ok := d.(*ast.FuncDecl)
-		if !ok || !strings.HasPrefix(fd.Name.Name, "Coerce") {
-			continue
-		}
-		var call *ast.CallExpr
-		ast.Inspect(fd.Body, func(n ast.Node) bool {
-			if c, ok := n.(*ast.CallExpr); ok {
-				if se, ok := c.Fun.(*ast.SelectorExpr); ok && exprText(se.X) == "strconv" && call == nil {
-					call = c
-				}
-			}
-			return true
-		})
-		if call == nil {
-			die("%s: no strconv call", fd.Name.Name)
-		}
-		var args []string
-		for _, a := range call.Args[1:] {
-			bl, ok := a.(*ast.BasicLit)
-			if !ok || bl.Kind != token.INT {
-				die("%s: non-constant strconv argument", fd.Name.Name)
-			}
-			args = append(args, bl.Value)
-		}
-		if id, ok := call.Args[0].(*ast.Ident); !ok || id.Name != fd.Type.Params.List[0].Names[0].Name {
-			die("%s: strconv is not applied to the parameter", fd.Name.Name)
-		}
-		lines = append(lines, fmt.Sprintf("  (%s, (%s, [%s]%%Z))", cs(fd.Name.Name), cs(exprText(call.Fun)), strings.Join(args, "; ")))
-	}
-	fmt.Println(strings.Join(lines, ";\n"))
-	fmt.Println("].")
-
-	// options.go: the composite literal returned by getDefaultOptions
-	fd := funcDecl(optF, "", "getDefaultOptions")
-	ret := fd.Body.List[len(fd.Body.List)-1].(*ast.ReturnStmt).Results[0].(*ast.CompositeLit)
-	var orows [][2]string
-	for _, e := range ret.Elts {
-		kv := e.(*ast.KeyValueExpr)
-		orows = append(orows, [2]string{exprText(kv.Key), exprText(kv.Value)})
-	}
-	emitTable("go_default_options", orows)
-
-	// evaluate.go: evaluateMatchExpression dispatch: operator -> (matcher, negated?)
-	fd = funcDecl(evalF, "", "evaluateMatchExpression")
-	var sw *ast.SwitchStmt
-	for _, st := range fd.Body.List {
-		if s, ok := st.(*ast.SwitchStmt); ok {
-			sw = s
-		}
-	}
-	fmt.Println("Definition go_match_dispatch : list (string * (string * bool)) := [")
-	lines = nil
-	for _, c := range sw.Body.List {
-		cc := c.(*ast.CaseClause)
-		if cc.List == nil {
-			continue
-		}
-		fn, negated := "", false
-		ast.Inspect(cc, func(n ast.Node) bool {
-			switch x := n.(type) {
-			case *ast.CallExpr:
-				if id, ok := x.Fun.(*ast.Ident); ok && strings.HasPrefix(id.Name, "doMatch") {
-					fn = id.Name
-				}
-			case *ast.UnaryExpr:
-				if x.Op == token.NOT {
-					negated = true
-				}
-			}
-			return true
-		})
-		for _, e := range cc.List {
-			lines = append(lines, fmt.Sprintf("  (%s, (%s, %v))", cs(exprText(e)), cs(fn), negated))
-		}
-	}
-	fmt.Println(strings.Join(lines, ";\n"))
-	fmt.Println("].")
-
-	// evaluate.go, filter.go, bexpr.go: every assignment (and ++/--) whose target is not a plain local identifier -
-	// a field, a dereference or an element.  The evaluation path must not write to shared structures (C12, C13).
-	fmt.Println("(* (file, function, assignment target) of every assignment to a field, dereference or element *)")
-	fmt.Println("Definition go_field_writes : list (string * string * string) := [")
-	lines = nil
-	for _, fn := range []string{"bexpr.go", "evaluate.go", "filter.go"} {
-		f := parse(filepath.Join(root, fn))
-		for _, d := range f.Decls {
-			fdecl, ok := d.(*ast.FuncDecl)
-			if !ok || fdecl.Body == nil {
+	section("Definition go_coerce_calls : list (string * (string * list Z)) := [(\"<unrecognised>\", (\"\", []%Z))].\n", func() {
+		// coerce.go: the strconv call inside each Coerce function and its constant arguments
+		pln("Definition go_coerce_calls : list (string * (string * list Z)) := [")
+		var lines []string
+		for _, d := range coerceF.Decls {
+			fd, ok := d.(*ast.FuncDecl)
+			if !ok || !strings.HasPrefix(fd.Name.Name, "Coerce") {
 				continue
 			}
-			name := fdecl.Name.Name
-			record := func(e ast.Expr) {
-				switch e.(type) {
-				case *ast.Ident:
-					return
-				}
-				lines = append(lines, fmt.Sprintf("  (%s, %s, %s)", cs(fn), cs(name), cs(anyExprText(e))))
-			}
-			ast.Inspect(fdecl.Body, func(n ast.Node) bool {
-				switch x := n.(type) {
-				case *ast.AssignStmt:
-					if x.Tok != token.DEFINE {
-						for _, l := range x.Lhs {
-							record(l)
-						}
+			var call *ast.CallExpr
+			ast.Inspect(fd.Body, func(n ast.Node) bool {
+				if c, ok := n.(*ast.CallExpr); ok {
+					if se, ok := c.Fun.(*ast.SelectorExpr); ok && exprText(se.X) == "strconv" && call == nil {
+						call = c
 					}
-				case *ast.IncDecStmt:
-					record(x.X)
 				}
 				return true
 			})
+			if call == nil {
+				die("%s: no strconv call", fd.Name.Name)
+			}
+			var args []string
+			for _, a := range call.Args[1:] {
+				bl, ok := a.(*ast.BasicLit)
+				if !ok || bl.Kind != token.INT {
+					die("%s: non-constant strconv argument", fd.Name.Name)
+				}
+				args = append(args, bl.Value)
+			}
+			if id, ok := call.Args[0].(*ast.Ident); !ok || id.Name != fd.Type.Params.List[0].Names[0].Name {
+				die("%s: strconv is not applied to the parameter", fd.Name.Name)
+			}
+			lines = append(lines, fmt.Sprintf("  (%s, (%s, [%s]%%Z))", cs(fd.Name.Name), cs(exprText(call.Fun)), strings.Join(args, "; ")))
 		}
-	}
-	fmt.Println(strings.Join(lines, ";\n"))
-	fmt.Println("].")
+		pln(strings.Join(lines, ";\n"))
+		pln("].")
+
+	})
+	section(unrec2("go_default_options"), func() {
+		// options.go: the composite literal returned by getDefaultOptions
+		fd := funcDecl(optF, "", "getDefaultOptions")
+		ret := fd.Body.List[len(fd.Body.List)-1].(*ast.ReturnStmt).Results[0].(*ast.CompositeLit)
+		var orows [][2]string
+		for _, e := range ret.Elts {
+			kv := e.(*ast.KeyValueExpr)
+			orows = append(orows, [2]string{exprText(kv.Key), exprText(kv.Value)})
+		}
+		emitTable("go_default_options", orows)
+
+	})
+	section("Definition go_match_dispatch : list (string * (string * bool)) := [(\"<unrecognised>\", (\"\", false))].\n", func() {
+		// evaluate.go: evaluateMatchExpression dispatch: operator -> (matcher, negated?)
+		fd := funcDecl(evalF, "", "evaluateMatchExpression")
+		var sw *ast.SwitchStmt
+		for _, st := range fd.Body.List {
+			if s, ok := st.(*ast.SwitchStmt); ok {
+				sw = s
+			}
+		}
+		pln("Definition go_match_dispatch : list (string * (string * bool)) := [")
+		var lines []string
+		for _, c := range sw.Body.List {
+			cc := c.(*ast.CaseClause)
+			if cc.List == nil {
+				continue
+			}
+			fn, negated := "", false
+			ast.Inspect(cc, func(n ast.Node) bool {
+				switch x := n.(type) {
+				case *ast.CallExpr:
+					if id, ok := x.Fun.(*ast.Ident); ok && strings.HasPrefix(id.Name, "doMatch") {
+						fn = id.Name
+					}
+				case *ast.UnaryExpr:
+					if x.Op == token.NOT {
+						negated = true
+					}
+				}
+				return true
+			})
+			for _, e := range cc.List {
+				lines = append(lines, fmt.Sprintf("  (%s, (%s, %v))", cs(exprText(e)), cs(fn), negated))
+			}
+		}
+		pln(strings.Join(lines, ";\n"))
+		pln("].")
+
+	})
+	section("Definition go_field_writes : list (string * string * string * string) := [(\"<unrecognised>\", \"Evaluate\", \"\", \"shared\")].\n", func() {
+		// evaluate.go, filter.go, bexpr.go, options.go, coerce.go: every assignment (and ++/--) whose target is not a plain identifier -
+		// a field, a dereference or an element - with a classification of what it writes to:
+		//   "own-copy": a chain of field selections (no index, no dereference) on a by-value struct parameter, or on a local that
+		//               was initialised from a composite literal T{...} or from such a parameter: the callee's own copy;
+		//   "shared":   everything else (pointer parameters and receivers, package variables, locals of unknown origin, elements).
+		// The evaluation path must not write to shared structures (C12, C13).
+		pln("(* (file, function, assignment target, class) of every assignment to a field, dereference or element *)")
+		pln("Definition go_field_writes : list (string * string * string * string) := [")
+		var lines []string
+		refType := func(t ast.Expr) bool { // a type whose values share what they point to
+			switch x := t.(type) {
+			case *ast.StarExpr, *ast.MapType, *ast.ArrayType, *ast.ChanType, *ast.FuncType, *ast.InterfaceType, *ast.Ellipsis:
+				return true
+			case *ast.Ident:
+				return x.Name == "error" || x.Name == "any"
+			case *ast.SelectorExpr:
+				return anyExprText(x) == "reflect.Value" || anyExprText(x) == "reflect.Type"
+			}
+			return false
+		}
+		for _, fn := range []string{"bexpr.go", "evaluate.go", "filter.go", "options.go", "coerce.go"} {
+			f := parse(filepath.Join(root, fn))
+			for _, d := range f.Decls {
+				fdecl, ok := d.(*ast.FuncDecl)
+				if !ok || fdecl.Body == nil {
+					continue
+				}
+				name := fdecl.Name.Name
+				own := map[string]bool{} // identifiers that denote the function's own copy of a struct
+				if fdecl.Type.Params != nil {
+					for _, p := range fdecl.Type.Params.List {
+						if !refType(p.Type) {
+							for _, n := range p.Names {
+								own[n.Name] = true
+							}
+						}
+					}
+				}
+				// locals: x := T{...}  /  x := y (y own)  /  var x T
+				ast.Inspect(fdecl.Body, func(n ast.Node) bool {
+					switch x := n.(type) {
+					case *ast.AssignStmt:
+						if x.Tok == token.DEFINE && len(x.Lhs) == len(x.Rhs) {
+							for i, l := range x.Lhs {
+								id, ok := l.(*ast.Ident)
+								if !ok {
+									continue
+								}
+								switch r := x.Rhs[i].(type) {
+								case *ast.CompositeLit:
+									if !refType(r.Type) {
+										own[id.Name] = true
+									}
+								case *ast.Ident:
+									if own[r.Name] {
+										own[id.Name] = true
+									}
+								}
+							}
+						}
+					case *ast.DeclStmt:
+						if gd, ok := x.Decl.(*ast.GenDecl); ok && gd.Tok == token.VAR {
+							for _, sp := range gd.Specs {
+								if vs, ok := sp.(*ast.ValueSpec); ok && vs.Type != nil && !refType(vs.Type) && len(vs.Values) == 0 {
+									for _, n := range vs.Names {
+										own[n.Name] = true
+									}
+								}
+							}
+						}
+					}
+					return true
+				})
+				var classify func(e ast.Expr) string
+				classify = func(e ast.Expr) string {
+					switch x := e.(type) {
+					case *ast.Ident:
+						if own[x.Name] {
+							return "own-copy"
+						}
+						return "shared"
+					case *ast.SelectorExpr:
+						return classify(x.X)
+					case *ast.ParenExpr:
+						return classify(x.X)
+					}
+					return "shared" // index, dereference, call results
+				}
+				record := func(e ast.Expr) {
+					if _, ok := e.(*ast.Ident); ok {
+						return
+					}
+					lines = append(lines, fmt.Sprintf("  (%s, %s, %s, %s)", cs(fn), cs(name), cs(anyExprText(e)), cs(classify(e))))
+				}
+				ast.Inspect(fdecl.Body, func(n ast.Node) bool {
+					switch x := n.(type) {
+					case *ast.AssignStmt:
+						if x.Tok != token.DEFINE {
+							for _, l := range x.Lhs {
+								record(l)
+							}
+						}
+					case *ast.IncDecStmt:
+						record(x.X)
+					}
+					return true
+				})
+			}
+		}
+		pln(strings.Join(lines, ";\n"))
+		pln("].")
+
+	})
+	section("Definition go_eval_reachable : list string := [\"<unrecognised>\"].\n", func() {
+		// the functions reachable from Evaluator.Evaluate and Filter.Execute through calls by name (functions and methods of the
+		// package, matched by name): the evaluation path
+		{
+			calls := map[string]map[string]bool{}
+			declared := map[string]bool{}
+			for _, fn := range []string{"bexpr.go", "evaluate.go", "filter.go", "options.go", "coerce.go"} {
+				f := parse(filepath.Join(root, fn))
+				for _, d := range f.Decls {
+					fdecl, ok := d.(*ast.FuncDecl)
+					if !ok || fdecl.Body == nil {
+						continue
+					}
+					name := fdecl.Name.Name
+					declared[name] = true
+					if calls[name] == nil {
+						calls[name] = map[string]bool{}
+					}
+					ast.Inspect(fdecl.Body, func(n ast.Node) bool {
+						// any mention of a package function counts (a function value may be called later)
+						switch x := n.(type) {
+						case *ast.Ident:
+							calls[name][x.Name] = true
+						case *ast.SelectorExpr:
+							calls[name][x.Sel.Name] = true
+						}
+						return true
+					})
+				}
+			}
+			reach := map[string]bool{"Evaluate": true, "Execute": true}
+			for changed := true; changed; {
+				changed = false
+				for f := range reach {
+					for c := range calls[f] {
+						if declared[c] && !reach[c] {
+							reach[c] = true
+							changed = true
+						}
+					}
+				}
+			}
+			var names []string
+			for f := range reach {
+				names = append(names, f)
+			}
+			sort.Strings(names)
+			emitList("go_eval_reachable", names)
+		}
+
+	})
+	section("Definition go_package_vars : list (string * string * string) := [(\"<unrecognised>\", \"\", \"mutable\")].\n", func() {
+		// package-level variables of the same files: (file, name, class). "mutable" = anything that can hold state written after
+		// initialisation (maps, slices, pointers, channels, sync and atomic types, composite values); "fixed" = basic literals and the
+		// results of reflect.TypeOf / errors.New / regexp.MustCompile / fmt.Errorf, which the code only reads.
+		pln("Definition go_package_vars : list (string * string * string) := [")
+		var lines []string
+		fixedCalls := map[string]bool{"reflect.TypeOf": true, "errors.New": true, "regexp.MustCompile": true, "fmt.Errorf": true}
+		for _, fn := range []string{"bexpr.go", "evaluate.go", "filter.go", "options.go", "coerce.go", "grammar/ast.go"} {
+			f := parse(filepath.Join(root, fn))
+			for _, d := range f.Decls {
+				gd, ok := d.(*ast.GenDecl)
+				if !ok || gd.Tok != token.VAR {
+					continue
+				}
+				for _, sp := range gd.Specs {
+					vs := sp.(*ast.ValueSpec)
+					for i, n := range vs.Names {
+						class := "mutable"
+						if i < len(vs.Values) {
+							switch v := vs.Values[i].(type) {
+							case *ast.BasicLit:
+								class = "fixed"
+							case *ast.CallExpr:
+								if fixedCalls[anyExprText(v.Fun)] {
+									class = "fixed"
+								}
+							}
+						}
+						if vs.Type != nil {
+							tt := anyExprText(vs.Type)
+							if strings.HasPrefix(tt, "sync.") || strings.HasPrefix(tt, "atomic.") || strings.HasPrefix(tt, "map[") || strings.HasPrefix(tt, "[]") || strings.HasPrefix(tt, "*") || strings.HasPrefix(tt, "chan") {
+								class = "mutable"
+							}
+						}
+						lines = append(lines, fmt.Sprintf("  (%s, %s, %s)", cs(fn), cs(n.Name), cs(class)))
+					}
+				}
+			}
+		}
+		pln(strings.Join(lines, ";\n"))
+		pln("].")
+
+	})
+	os.Stdout.Write(out.Bytes())
 }
